@@ -707,6 +707,19 @@ func RecoverWALData() {
 	}
 
 	for _, fileData := range walFilesData {
+		metricsKey, _ := getBaseMetricsKey(fileData.segID, fileData.mId)
+		if isBlockFlushed(metricsKey, fileData.segID, uint16(fileData.blockNo)) {
+			// The block was already flushed (by the block rotation that was deleting these WAL files, or by an
+			// earlier recovery): the files are stale. Rebuilding the block from the ones that are left would
+			// overwrite the complete block with a part of it.
+			for _, walFileName := range fileData.walFiles {
+				err = deleteWalFile(baseDir, walFileName)
+				if err != nil {
+					log.Warnf("RecoverWALData : Failed to delete stale wal file %s: %v", walFileName, err)
+				}
+			}
+			continue
+		}
 		mBlock := initMetricsBlock(fileData.mId, fileData.segID, fileData.blockNo)
 		isWalFileEmpty := true
 		replayedFiles := make([]string, 0, len(fileData.walFiles))
@@ -738,7 +751,6 @@ func RecoverWALData() {
 		}
 
 		if !isWalFileEmpty {
-			metricsKey, _ := getBaseMetricsKey(fileData.segID, fileData.mId)
 			err := mBlock.flushBlock(metricsKey, fileData.segID, uint16(fileData.blockNo))
 			if err != nil {
 				log.Warnf("RecoverWALData :Failed to flush block for shardID=%s, segID=%d, blockNo=%d: %v",
@@ -757,6 +769,12 @@ func RecoverWALData() {
 			}
 		}
 	}
+}
+
+// The .tsg file is the last file flushBlock writes (one write call): if it has content the block is complete.
+func isBlockFlushed(basePath string, suffix uint64, bufId uint16) bool {
+	fInfo, err := os.Stat(fmt.Sprintf("%s%d_%d.tsg", basePath, suffix, bufId))
+	return err == nil && fInfo.Size() > 1
 }
 
 func (mb *MetricsBlock) encodeDatapoint(timestamp uint32, dpVal float64, tsid uint64) error {
